@@ -6,7 +6,7 @@ import RisorModel.C18.Model
 `hist <history>` → `ok <impl outcomes> <impl registers> <impl trace> <spec outcomes> <spec trace> <violated guards>`
   history  := piece ("|" piece)*            piece := "X" (parse error) | stmt (";" stmt)*
   stmt     := id:flags:need:leak:pre:uses:asg:vdecl:cdecl:fdefs:calls
-  flags    := subset of "elfn" (isExpr, leaves, fails, inFn) or "-";  lists := n.n.n or "-"
+  flags    := subset of "elfnj" (isExpr, leaves, fails, inFn, junk) or "-";  lists := n.n.n or "-"
   outcomes := per piece `ok:<value id>` | `parse` | `compile` | `fail`
   registers:= per piece `<stack height>:<ip at end of code 1/0>:<code grew 1/0>:<compiler stuck 1/0>`
   trace    := per piece the statements executed by that piece's run, `id` or `id~` (stale globals view)
@@ -34,7 +34,7 @@ def parseStmt (t : String) : Option Stmt :=
     let fd ← parseList fd
     let calls ← parseList calls
     let has (c : Char) : Bool := fl.toList.contains c
-    pure { id := id, isExpr := has 'e', leaves := has 'l', fails := has 'f', inFn := has 'n',
+    pure { id := id, isExpr := has 'e', leaves := has 'l', fails := has 'f', inFn := has 'n', junk := has 'j',
            need := need, leak := leak, pre := pre, uses := uses, asg := asg, vdecl := vd, cdecl := cd,
            fdefs := fd, calls := calls }
   | _ => none
@@ -81,6 +81,171 @@ def answerHist (host : List Nat) (ps : List Piece) : String :=
     bar (sl.map (·.1)), bar (sl.map (·.2)), (if gs.isEmpty then "-" else ",".intercalate gs),
     b01 (guardHost host ps)]
 
+
+/-! ### layer 3: `marks <history>`
+  history := piece ("|" piece)*   piece := "-" | ev ("," ev)*
+  ev := "+" m (enter) | "-" … no: "<" (leave) | "e" k ":" letters-or-"-" (emit) | "!" (err);  m := p l b s f
+  answer: `ok <impl> <spec> <guard 0/1>`, per piece `a|r : marks left set (letters or -) : code`, code := k or k~letters, "." separated -/
+
+def markOf : Char → Option Mark
+  | 'p' => some .pipe | 'l' => some .loop | 'b' => some .block | 's' => some .switchVal | 'f' => some .fn | _ => none
+
+def markCh : Mark → Char
+  | .pipe => 'p' | .loop => 'l' | .block => 'b' | .switchVal => 's' | .fn => 'f'
+
+def showMarks (l : List Mark) : String := if l.isEmpty then "-" else String.ofList (l.map markCh)
+
+def parseEv (t : String) : Option CEv :=
+  match t.toList with
+  | ['+', c] => (markOf c).map .enter
+  | ['<'] => some .leave
+  | ['!'] => some .err
+  | 'e' :: rest =>
+    match (String.ofList rest).splitOn ":" with
+    | [k, ms] => do
+      let k ← k.toNat?
+      let ms ← if ms == "-" then some [] else ms.toList.mapM markOf
+      pure (.emit k ms)
+    | _ => none
+  | _ => none
+
+def parseEvs (t : String) : Option (List CEv) := if t == "-" then some [] else (t.splitOn ",").mapM parseEv
+
+def showMOut (inh : List Mark) (r : MOut) : String :=
+  (if r.ok then "a" else "r") ++ ":" ++ showMarks (r.own ++ inh) ++ ":" ++
+    (if r.code.isEmpty then "-" else ".".intercalate (r.code.map fun (k, u) => toString k ++ (if u.isEmpty then "" else "~" ++ showMarks u)))
+
+def marksLog (inh : List Mark) : List (List CEv) → List String
+  | [] => []
+  | evs :: rest =>
+    let r := compileEvs inh [] evs
+    showMOut inh r :: marksLog (r.own ++ inh) rest
+
+/-! ### layer 4: `bind <number of globals> <history>`
+  history := piece ("|" piece)*   piece := stmt (";" stmt)*
+  stmt := "s" g "=" texpr | "d" f "=" body "@" fexpr | "x" texpr     body := "-" | g ":" fexpr ("&" g ":" fexpr)*
+  texpr/fexpr := prefix token lists, "," separated: L<int> G<n> A + C<f>
+  answer: `ok <impl values> <impl globals> <spec values> <spec globals> <valid> <first piece outside the guard or ->`,
+  per piece ("|"): value `n` or an integer; globals/valid "." separated, valid = 1/0 per global of the current generation ("?" once outside the guard) -/
+
+def tl1 (t : String) : String := String.ofList (t.toList.drop 1)
+
+def parseIntTok (t : String) : Option Int :=
+  if t.startsWith "-" then (tl1 t).toNat?.map (fun n => - (Int.ofNat n)) else t.toNat?.map Int.ofNat
+
+def parseFTok : Nat → List String → Option (FExpr × List String)
+  | 0, _ => none
+  | fuel + 1, t :: rest =>
+    if t == "A" then some (.arg, rest)
+    else if t == "+" then do
+      let (a, r1) ← parseFTok fuel rest
+      let (b, r2) ← parseFTok fuel r1
+      pure (.add a b, r2)
+    else if t.startsWith "L" then (parseIntTok (tl1 t)).map fun v => (.lit v, rest)
+    else if t.startsWith "G" then (tl1 t).toNat?.map fun g => (.glob g, rest)
+    else none
+  | _, [] => none
+
+def parseTTok : Nat → List String → Option (TExpr × List String)
+  | 0, _ => none
+  | fuel + 1, t :: rest =>
+    if t == "+" then do
+      let (a, r1) ← parseTTok fuel rest
+      let (b, r2) ← parseTTok fuel r1
+      pure (.add a b, r2)
+    else if t.startsWith "L" then (parseIntTok (tl1 t)).map fun v => (.lit v, rest)
+    else if t.startsWith "G" then (tl1 t).toNat?.map fun g => (.glob g, rest)
+    else if t.startsWith "C" then do
+      let f ← (tl1 t).toNat?
+      let (a, r1) ← parseTTok fuel rest
+      pure (.call f a, r1)
+    else none
+  | _, [] => none
+
+def parseF (t : String) : Option FExpr :=
+  let toks := t.splitOn ","
+  match parseFTok (toks.length + 1) toks with
+  | some (e, []) => some e
+  | _ => none
+
+def parseT (t : String) : Option TExpr :=
+  let toks := t.splitOn ","
+  match parseTTok (toks.length + 1) toks with
+  | some (e, []) => some e
+  | _ => none
+
+def parseBody (t : String) : Option (List (Nat × FExpr)) :=
+  if t == "-" then some [] else (t.splitOn "&").mapM fun a =>
+    match a.splitOn ":" with
+    | [g, e] => do pure ((← g.toNat?), (← parseF e))
+    | _ => none
+
+def parseTStmt (t : String) : Option TStmt :=
+  if t.startsWith "x" then (parseT (tl1 t)).map .expr
+  else match (tl1 t).splitOn "=" with
+    | [a, b] =>
+      if t.startsWith "s" then do pure (.set (← a.toNat?) (← parseT b))
+      else if t.startsWith "d" then
+        match b.splitOn "@" with
+        | [body, ret] => do pure (.defn (← a.toNat?) ⟨(← parseBody body), (← parseF ret)⟩)
+        | _ => none
+      else none
+    | _ => none
+
+def parseBindHist (t : String) : Option (List (List TStmt)) :=
+  (t.splitOn "|").mapM fun p => (p.splitOn ";").mapM parseTStmt
+
+def showVal : Option Int → String
+  | none => "n"
+  | some v => toString v
+
+def dots (l : List String) : String := if l.isEmpty then "-" else ".".intercalate l
+
+/-- Impl, piece by piece: value, the current generation's globals, and the guard's bookkeeping -/
+def bindLog (ng : Nat) : BCtl → Gens → Option Valid → List (List TStmt) → List (String × String × String)
+  | _, _, _, [] => []
+  | c, G, V, l :: rest =>
+    let c1 := c.next l
+    let r := execPiece c1.env l (reloadGens c G) none
+    let V1 := V.bind fun v => okPiece c1.env l (reloadValid c v)
+    let snap := dots ((List.range ng).map fun g => toString (r.2 c1.cur g))
+    let vs := match V1 with
+      | some v => dots ((List.range ng).map fun g => b01 (v g c1.cur))
+      | none => "?"
+    (showVal r.1, snap, vs) :: bindLog ng c1 r.2 V1 rest
+
+def bindSpecLog (ng : Nat) : (Nat → Option FnDef) → Gens → List (List TStmt) → List (String × String)
+  | _, _, [] => []
+  | defs, S, l :: rest =>
+    let d1 := addDefs defs l
+    let r := execPiece (specEnv d1) l S none
+    (showVal r.1, dots ((List.range ng).map fun g => toString (r.2 0 g))) :: bindSpecLog ng d1 r.2 rest
+
+/-! ### layer 5: `histc <host names> <contexts> <history>`: `histh` with one context letter per piece
+  (b background, c cancellable, d done before the run ends); the answer of `histh` computed on the machine
+  with the halt flag, plus the flag after every piece -/
+
+def ctxOf : Char → Option Ctx
+  | 'b' => some .background | 'c' => some .cancellable | 'd' => some .done | _ => none
+
+def implLogC : HRepl → List (Ctx × Piece) → List (String × String × String × String)
+  | _, [] => []
+  | h, (c, p) :: ps =>
+    let (h1, o) := h.feed c p
+    let r := h.r
+    let r1 := h1.r
+    let reg := toString r1.vm.stack.length ++ ":" ++ b01 (r1.vm.ip == r1.comp.code.length) ++ ":" ++
+      b01 (r1.comp.code.length > r.comp.code.length) ++ ":" ++ b01 r1.comp.stuck
+    (showOutcome o, reg, showTrace (r1.vm.trace.drop r.vm.trace.length), b01 h1.halt) :: implLogC h1 ps
+
+def answerHistC (host : List Nat) (cs : List Ctx) (ps : List Piece) : String :=
+  let il := implLogC { r := Repl.init host } (cs.zip ps)
+  let sl := specLog (SpecSt.init host) ps
+  let gs := violatedGuardsFrom (GSt.init host) ps
+  "\t".intercalate ["ok", bar (il.map (·.1)), bar (il.map (·.2.1)), bar (il.map (·.2.2.1)),
+    bar (sl.map (·.1)), bar (sl.map (·.2)), (if gs.isEmpty then "-" else ",".intercalate gs),
+    b01 (guardHost host ps), String.join (il.map (·.2.2.2))]
+
 def handle : List String → String
   | ["hist", h] =>
     match parseHist h with
@@ -89,6 +254,25 @@ def handle : List String → String
   | ["histh", host, h] =>
     match parseList host, parseHist h with
     | some hs, some ps => answerHist hs ps
+    | _, _ => "error\tbad-history"
+  | ["histc", host, ctxs, h] =>
+    match parseList host, ctxs.toList.mapM ctxOf, parseHist h with
+    | some hs, some cs, some ps =>
+      if cs.length == ps.length then answerHistC hs cs ps else "error\tbad-contexts"
+    | _, _, _ => "error\tbad-history"
+  | ["marks", h] =>
+    match (h.splitOn "|").mapM parseEvs with
+    | none => "error\tbad-events"
+    | some ps =>
+      "\t".intercalate ["ok", bar (marksLog [] ps), bar ((marksSpec ps).map (showMOut [])), b01 (marksGuard ps)]
+  | ["bind", ng, h] =>
+    match ng.toNat?, parseBindHist h with
+    | some ng, some ps =>
+      let il := bindLog ng {} (fun _ _ => 0) (some fun _ _ => true) ps
+      let sl := bindSpecLog ng (fun _ => none) (fun _ _ => 0) ps
+      let firstBad := (il.map (·.2.2)).idxOf "?"
+      "\t".intercalate ["ok", bar (il.map (·.1)), bar (il.map (·.2.1)), bar (sl.map (·.1)), bar (sl.map (·.2)),
+        bar (il.map (·.2.2)), (if firstBad < il.length then toString firstBad else "-")]
     | _, _ => "error\tbad-history"
   | ["frag", text] =>
     match C04.decode true text with
